@@ -42,9 +42,11 @@ def _strategy(draw):
     assets = []
     for i in range(draw(st.integers(1, 3))):
         cls = draw(st.sampled_from(["simple", "storage", "storage", "contract", "transport", "transport", "multi",
-                                    "orderbook", "orderbook"]))
+                                    "orderbook", "orderbook", "storage_mip"]))
         if i == 0 and draw(st.integers(0, 3)) > 0:
             cls = "storage"      # something that couples present and future in most cases (else the stages decouple)
+        if cls == "storage_mip" and (T > 5 or any(x["type"] == "storage" and (x.get("no_simult") or x.get("max_store_duration")) for x in assets)):
+            cls = "storage"      # boolean variables only on short grids, one such storage (exact reference by enumeration)
         a = gen.draw_asset(draw, cx, cls, "a%d" % i)
         if cls == "orderbook":
             a["wacc"] = 0.0
@@ -117,11 +119,27 @@ def check(spec):
     raw0 = lpkit.from_op(op)
     scen_prices = [spec["prices"]] + list(spec["samples"])
     cs = []
-    for p in scen_prices:
+    for kk_, p in enumerate(scen_prices):
+        # the cost vector of scenario k: the problem set up with these prices.  The cost-sample shortcut (costs_only),
+        # which is what robust and stochastic problems are fed with, has to give the same vector
+        rk = obs.Run(dict(spec, prices=p))
+        if is_err(rk.op):
+            return out.drop("scenario_setup_error")
+        ck = np.asarray(rk.op.c, float)
         c = cost_vector(spec, p)
         if is_err(c):
-            return out.drop("cost_vector_error")
-        cs.append(np.asarray(c, float))
+            return out.fail("cost sample (costs_only) of scenario %d raised %s" % (kk_, c.short()))
+        try:
+            c = np.asarray(c, float)
+        except Exception:
+            return out.fail("cost sample (costs_only) of scenario %d contains objects that are not numbers" % kk_)
+        if c.shape != ck.shape:
+            return out.fail("cost sample (costs_only) of scenario %d has %d entries, the problem has %d variables" % (kk_, len(c), len(ck)))
+        if not np.allclose(c, ck, rtol=1e-9, atol=1e-12):
+            i_ = int(np.argmax(np.abs(c - ck)))
+            return out.fail("cost sample (costs_only) of scenario %d differs from the cost vector of the problem set up with these prices at variable %d: %g vs %g"
+                            % (kk_, i_, c[i_], ck[i_]))
+        cs.append(ck)
     S1 = len(cs)
     # per-scenario optima
     Vs, xs = [], []
